@@ -423,6 +423,55 @@ func bursts(r *vlib.Run, d *vlib.Driver, rng *vlib.Rng) {
 	}
 }
 
+// capacityThenTimeOracle: implementation-only. The filter is filled to exactly its capacity
+// (and, second shape, beyond it) within one TTL; then the clock makes a step of at least the TTL,
+// or a step backwards behind every entry. From the property text: after the TTL every old value
+// is forgotten ("forgets them afterwards") and after a backwards jump everything is discarded —
+// being at capacity changes neither. So an old value far from the eldest is "new" again, and the
+// filter then holds exactly that one entry.
+func capacityThenTimeOracle(r *vlib.Run) {
+	const capN = 102400
+	ttl := 3 * time.Hour
+	for _, sh := range []struct {
+		name  string
+		extra int
+		step  time.Duration
+	}{{"full-then-ttl", 0, ttl}, {"overfull-then-ttl", 37, ttl + time.Second}, {"full-then-backwards", 0, -time.Hour}, {"overfull-then-backwards", 37, -time.Hour}, {"full-then-steady", 0, time.Second}} {
+		f, _ := replayfilter.New(ttl)
+		now := base.Add(time.Hour)
+		n := capN + sh.extra
+		for i := 0; i < n; i++ {
+			now = now.Add(time.Nanosecond)
+			f.TestAndSet(now, valBytes(i))
+		}
+		now = now.Add(sh.step)
+		probe := n - 5000 // far from the eldest entries, still remembered before the step
+		seen := f.TestAndSet(now, valBytes(probe))
+		m, l := replayfilter.VerifLen(f)
+		r.Case("capacity-then-time-"+sh.name, true)
+		r.Count("class", "capacity-then-time-"+sh.name)
+		rp := map[string]interface{}{"capacityThenTime": true}
+		if sh.name == "full-then-steady" {
+			if !seen {
+				r.Violate("capacity-evicted-young-entry", "impl-oracle", fmt.Sprintf("%s: filter at capacity, clock +1s: value %d (far from the oldest, younger than the TTL) is no longer remembered", sh.name, probe), rp)
+			}
+			continue
+		}
+		if seen {
+			r.Violate("full-filter-ignores-time", "impl-oracle", fmt.Sprintf("%s: %d distinct values within one TTL, then a clock step of %v: value %d is still reported as seen (at capacity the filter must expire / discard exactly as below capacity)", sh.name, n, sh.step, probe), rp)
+			continue
+		}
+		if m != 1 || l != 1 {
+			r.Violate("full-filter-ignores-time", "impl-oracle", fmt.Sprintf("%s: %d distinct values within one TTL, then a clock step of %v and one submission: the filter holds map=%d fifo=%d entries, expected 1 (everything else expired / was discarded)", sh.name, n, sh.step, m, l), rp)
+			continue
+		}
+		// and the survivors' neighbours are forgotten too
+		if f.TestAndSet(now, valBytes(probe+1)) {
+			r.Violate("full-filter-ignores-time", "impl-oracle", fmt.Sprintf("%s: value %d still remembered after the step", sh.name, probe+1), rp)
+		}
+	}
+}
+
 func main() {
 	r := vlib.NewRun("C11")
 	r.Rule = "history = list of (time step, value); exhaustive over all histories up to the tier's length over 3 values x time steps {-2,0,1,ttl-1,ttl} (ttl=4), then random long histories incl. negative steps; non-trivial = a value repeats AND (an expiry/reset made a repeat 'new' OR a backwards step occurs); distinct by canonical op line"
@@ -443,6 +492,8 @@ func main() {
 			concurrent(r, 2000)
 		} else if raw["capacityOracle"] == true {
 			capacityOracle(r)
+		} else if raw["capacityThenTime"] == true {
+			capacityThenTimeOracle(r)
 		} else if raw["resetThenFill"] == true {
 			resetThenFillOracle(r)
 		} else if raw["capacity"] == true {
@@ -484,6 +535,7 @@ func main() {
 	concurrent(r, r.Scale(2000, 20000))
 	capacityOracle(r)
 	resetThenFillOracle(r)
+	capacityThenTimeOracle(r)
 	if r.Thorough() {
 		capacity(r, d)
 	}
